@@ -128,6 +128,7 @@ type c01Ctl struct {
 	ErrMsg             string
 	EmptyOuts          bool
 	Big                int
+	SleepMs            int // the implementation takes this long (the call may time out on the client)
 }
 
 // c01Inflate gives a string / byte vector value exactly n bytes (packets larger than the transports' read buffers)
@@ -306,6 +307,9 @@ func c01Serve(ctx context.Context, fn string, ins []interface{}, outs []interfac
 		return &tars.Error{Code: 9999, Message: "c01: the implementation was called with inputs no caller passed"}
 	}
 	p := c01MakePlan(f, key, ctl)
+	if ctl.SleepMs > 0 {
+		time.Sleep(time.Duration(ctl.SleepMs) * time.Millisecond)
+	}
 	if p.err != nil {
 		return p.err
 	}
@@ -767,7 +771,11 @@ func c01FreePort() int {
 	return p
 }
 
-func c01StartServer(dir string) (proxy *e2e.E2E, err error) {
+func c01StartServer(dir string, objQueueMax int) (proxy *e2e.E2E, err error) {
+	queueLine := ""
+	if objQueueMax > 0 {
+		queueLine = fmt.Sprintf("objqueuemax=%d", objQueueMax)
+	}
 	for attempt := 0; attempt < 1; attempt++ {
 		port := c01FreePort()
 		conf := fmt.Sprintf(`<tars>
@@ -793,10 +801,11 @@ func c01StartServer(dir string) (proxy *e2e.E2E, err error) {
     <client>
       async-invoke-timeout=20000
       sync-invoke-timeout=20000
+      %s
     </client>
   </application>
 </tars>
-`, port)
+`, port, queueLine)
 		path := dir + "/e2e.conf"
 		if err := os.WriteFile(path, []byte(conf), 0o644); err != nil {
 			return nil, err
@@ -909,6 +918,8 @@ type c01Prepared struct {
 	key    string
 	plan   c01Plan
 	method reflect.Value
+	proxy  *e2e.E2E
+	tmoMs  int // > 0: the proxy's timeout for this call
 }
 
 func c01Prepare(proxy *e2e.E2E, k *c01Call) *c01Prepared {
@@ -917,7 +928,7 @@ func c01Prepare(proxy *e2e.E2E, k *c01Call) *c01Prepared {
 		fatal("c01: unknown function %q", k.Fn)
 	}
 	rng := rand.New(rand.NewSource(k.Seed))
-	p := &c01Prepared{f: f}
+	p := &c01Prepared{f: f, proxy: proxy, tmoMs: k.Timeout}
 	for i, t := range f.argT {
 		v := reflect.New(t) // pointer to a fresh variable
 		if f.Dirs[i] == 'i' || k.Prior {
@@ -950,7 +961,7 @@ func c01Prepare(proxy *e2e.E2E, k *c01Call) *c01Prepared {
 		p.opts = append(p.opts, p.stMap)
 	}
 	p.key = c01Key(f.Name, p.ins, p.ctxMap, p.stMap)
-	ctl := c01Ctl{RCtx: k.RCtx, RSt: k.RSt, ErrKind: k.ErrKind, ErrCode: k.ErrCode, ErrMsg: string(k.ErrMsg), EmptyOuts: k.EmptyOuts, Big: k.Big}
+	ctl := c01Ctl{RCtx: k.RCtx, RSt: k.RSt, ErrKind: k.ErrKind, ErrCode: k.ErrCode, ErrMsg: string(k.ErrMsg), EmptyOuts: k.EmptyOuts, Big: k.Big, SleepMs: k.Slow}
 	c01Mu.Lock()
 	if old, ok := c01Ctls[p.key]; ok {
 		ctl = old // two callers passing identical inputs get the identical behaviour
@@ -989,6 +1000,10 @@ type c01Outcome struct {
 }
 
 func c01Invoke(p *c01Prepared) (o c01Outcome) {
+	if p.tmoMs > 0 {
+		p.proxy.TarsSetTimeout(p.tmoMs)
+		defer p.proxy.TarsSetTimeout(c01CallTimeout)
+	}
 	args := []reflect.Value{reflect.ValueOf(context.Background())}
 	args = append(args, p.argv...)
 	for _, m := range p.opts {
@@ -1064,6 +1079,13 @@ func c01Judge(cfg c01Cfg, k *c01Call, p *c01Prepared, o c01Outcome) {
 	if o.err != nil {
 		code := tars.GetErrorCode(o.err)
 		k.Res = fmt.Sprintf("(CErr %s %s false)", coqZ(int64(code)), c01Str(o.err.Error()))
+		if k.Timeout > 0 && k.Slow > k.Timeout {
+			// a step of a call history: the implementation takes longer than the caller waits; the caller must get a timeout
+			if !strings.Contains(o.err.Error(), "timeout") {
+				fail("history", "slow-call-failed-otherwise", "%s: the implementation takes %d ms, the caller waits %d ms and got %q instead of a timeout", k.Fn, k.Slow, k.Timeout, o.err.Error())
+			}
+			return
+		}
 		if p.plan.err == nil {
 			// the request carries the caller's out variables; the dispatcher passes over those in front of an in argument
 			// with skipField, which refuses nesting deeper than maxSkipDepth
@@ -1397,7 +1419,7 @@ func c01ChildMain(inPath, outPath string) {
 	if i := strings.LastIndexByte(outPath, '/'); i >= 0 {
 		dir = outPath[:i]
 	}
-	proxy, err := c01StartServer(dir)
+	proxy, err := c01StartServer(dir, cases[0].ObjQueueMax)
 	if err == nil {
 		err = c01Probe(proxy)
 	}
@@ -1473,6 +1495,16 @@ func c01ChildMain(inPath, outPath string) {
 			close(start)
 			wg.Wait()
 		}
+		// a slow call that timed out on the client is still running in the server: wait until nothing is in flight
+		drain := 0
+		for i := range cs.Calls {
+			if d := cs.Calls[i].Slow - cs.Calls[i].Timeout + 150; cs.Calls[i].Slow > 0 && d > drain {
+				drain = d
+			}
+		}
+		if drain > 0 {
+			time.Sleep(time.Duration(drain) * time.Millisecond)
+		}
 		// expected implementation invocations of this batch, per key
 		want := map[string]int{}
 		wantOneWay := map[string]bool{}
@@ -1539,7 +1571,7 @@ func c01ChildMain(inPath, outPath string) {
 		}
 		for i := range cs.Calls {
 			k := &cs.Calls[i]
-			if !slowSeen && outs[i].err != nil && strings.Contains(outs[i].err.Error(), "request timeout") {
+			if !slowSeen && !(k.Timeout > 0 && k.Slow > k.Timeout) && outs[i].err != nil && strings.Contains(outs[i].err.Error(), "request timeout") {
 				// a call ran into the 20 s timeout: something is broken; later calls need not wait that long to say so
 				slowSeen = true
 				c01CallTimeout = 3000
